@@ -12,7 +12,19 @@ ASSUMPTIONS = ["in the pure Lean models determinism and isolation hold by constr
 TRUSTED = ["harness/relational.py, harness/algo_cases.py", "lean/PyXABModel/Drv"]
 
 
+# directed groups (on every run): configurations whose constructor takes a rarely used branch — state that such a branch
+# leaves behind in the class shows in the next instance of the same process
+DIRECTED = [
+    ("VROOM", {"params": {"n": 40, "h_max": 100, "b": 1.0, "f_max": 1.0}, "kind": "binary", "K": 2, "d": 1, "T": 40}),      # cap above the budget
+    ("VROOM", {"params": {"n": 64, "h_max": 1000, "b": 0.5, "f_max": 2.0}, "kind": "randBinary", "K": 2, "d": 2, "T": 30}),
+    ("StoSOO", {"params": {"n": 60, "h_max": 100}, "kind": "binary", "K": 2, "d": 1, "T": 60}),                             # k and delta left to their defaults
+    ("DOO", {"params": {"n": 100}, "kind": "kary", "K": 3, "d": 1, "T": 60}),                                                # default delta
+]
+
+
 def _grp(args):
+    if len(args) == 4:
+        return GROUP(args[0], args[1], args[2], directed=args[3])
     seed, idx, algo = args
     return GROUP(seed, idx, algo)
 
@@ -31,7 +43,7 @@ def budget(tier):
 
 
 def explore(tier, seed, n):
-    cases = run_groups([(seed + 1400, i, a) for a in ALGOS for i in range(n)])
+    cases = run_groups([(seed + 1400, 890000 + j, a, f) for j, (a, f) in enumerate(DIRECTED)] + [(seed + 1400, i, a) for a in ALGOS for i in range(n)])
     mism, n_ops = fw.compare(cases)
     return {"cases": cases, "mism": mism, "n_ops": n_ops}
 
